@@ -1,5 +1,5 @@
 (* C09 — property theorems for the code as it is after fixes 1f61a03, 4ce6577 and 3c40407 (statements only; proofs in Proofs_*.v). *)
-From Sdns Require Import Common.Base Gen.C09 C09.Model C09.Proofs_Maps C09.Proofs_Rev C09.Proofs_Step C09.Proofs_Refute C09.Proofs_Prov C09.Proofs_Thm C09.Proofs_Hist C09.Proofs_Live C09.Proofs_Wf C09.Proofs_Inv C09.Proofs_KeyTag.
+From Sdns Require Import Common.Base Gen.C09 C09.Model C09.Proofs_Maps C09.Proofs_Rev C09.Proofs_Step C09.Proofs_Refute C09.Proofs_Prov C09.Proofs_Thm C09.Proofs_Hist C09.Proofs_Live C09.Proofs_Wf C09.Proofs_Inv C09.Proofs_KeyTag C09.Proofs_Gen.
 Open Scope N_scope.
 
 (* A DNSKEY response carrying no valid signature made with the key material of a
@@ -234,3 +234,13 @@ Theorem keytag_revoke_moves_tag_by_128_or_129 :
     t' = (t + 128) mod 65536 \/ t' = (t + 129) mod 65536.
 Proof. exact keytag_revoke_delta. Qed.
 Print Assumptions keytag_revoke_moves_tag_by_128_or_129.
+
+(* Translator tie (srcgen stage 3, third-party structs): the Go function sameKeyExceptRevoke, translated from the
+   source over dns.DNSKEY records, IS the model's same_except_revoke on the abstraction (material, flags) of its
+   arguments — for every injective numbering of (algorithm, protocol, public key) triples.  On non-nil arguments
+   (item flag nonnil_pointers).  Editing the comparison in /repo changes Gen/C09.v and re-checks this. *)
+Theorem sameKeyExceptRevoke_is_model :
+  forall (enc : N * N * list N -> N), (forall a b, enc a = enc b -> a = b) ->
+  forall c r, go_sameKeyExceptRevoke c r = same_except_revoke (abs_key enc c) (abs_key enc r).
+Proof. exact gen_sameKeyExceptRevoke. Qed.
+Print Assumptions sameKeyExceptRevoke_is_model.
